@@ -26,7 +26,7 @@ import (
 var errZZClient = errors.New("api server error")
 
 type zzWrite struct {
-	kind  string // status-patch | status-update | update | delete | create
+	kind   string // status-patch | status-update | update | delete | create
 	podENI *v1beta1.PodENI
 }
 
@@ -218,12 +218,12 @@ func ZZ_C11_gc_leaked_enis() {
 	})
 	var enis []*aliyunClient.NetworkInterface
 	type meta struct {
-		cluster, creator string
+		cluster, creator       string
 		hasCluster, hasCreator bool
-		t       time.Time
-		parses  bool
-		ref     bool
-		typ, st string
+		t                      time.Time
+		parses                 bool
+		ref                    bool
+		typ, st                string
 	}
 	ms := make([]meta, n)
 	var refs []v1beta1.Allocation
